@@ -466,6 +466,14 @@ func (g *LibGen) History(nSteps int) []Op {
 				ops = append(ops, Op{fmt.Sprintf("disk %d", g.lay.HdrSize()), true})
 				break
 			}
+			if g.lay.K() >= 2 && g.r.Chance(1, 6) {
+				// the same batch handed to two archives one after the other, the coarser first
+				b := g.genBatch()
+				k2 := g.r.Intn(g.lay.K() - 1)
+				k1 := k2 + 1 + g.r.Intn(g.lay.K()-1-k2)
+				ops = append(ops, Op{fmt.Sprintf("updmany %d %d %s", k1, g.now, b), sUpd}, Op{fmt.Sprintf("updmany %d %d %s", k2, g.now, b), sUpd})
+				break
+			}
 			ops = append(ops, Op{fmt.Sprintf("updmany %d %d %s", g.validID(), g.now, g.genBatch()), sUpd})
 		case c < 16:
 			// clock advance
